@@ -11,6 +11,7 @@ import random
 import re
 import traceback
 from collections import defaultdict
+from decimal import Decimal
 from typing import Any, Optional
 
 from .core import Ctx, stable_hash
@@ -62,6 +63,10 @@ def choose_other_style(h: int) -> None:
     OTHER_STYLE["name"] = names[h % len(names)]
 
 
+def fresh_list() -> list:
+    return []
+
+
 class Names:
     """dictionary from name / key tokens to strings (benign by default; C19 substitutes hostile ones)"""
 
@@ -87,22 +92,28 @@ class Names:
             return DEFAULTS[ty]
         if st == 1:
             if (self.kindname or "").startswith("sqlalchemy"):
-                return {"int": 0, "str": "", "any": None}[ty]          # mapped_column(default=None) means "no default" in SQLAlchemy
-            return {"int": None, "str": "", "any": None}[ty]
-        return {"int": 0, "str": "", "any": []}[ty] if ty != "any" else []
+                return {"int": 0, "str": "", "any": None, "dec": Decimal(0)}[ty]          # mapped_column(default=None) means "no default" in SQLAlchemy
+            return {"int": None, "str": "", "any": None, "dec": None}[ty]
+        return {"int": 0, "str": "", "any": [], "dec": Decimal(0)}[ty] if ty != "any" else []
+
+    user_factory = False    # dstyle 2: the factory of an `any` field is a user function instead of the builtin `list` (no literal form)
 
     def factory(self, ty: str):
-        return {"int": int, "str": str, "any": list}[ty] if self.style() == 2 else None
+        if self.style() != 2:
+            return None
+        if ty == "any" and self.user_factory:
+            return fresh_list
+        return {"int": int, "str": str, "any": list, "dec": Decimal}[ty]
 
     def falsy(self, ty: str) -> Any:
         """a well-typed falsy value that is not the declared default (spec: FalsyV)"""
         st = self.style()
         if st == 0:
-            return {"int": 0, "str": "", "any": None}[ty]
+            return {"int": 0, "str": "", "any": None, "dec": Decimal(0)}[ty]
         if st == 1:
             if (self.kindname or "").startswith("sqlalchemy"):
-                return {"int": None, "str": None, "any": []}[ty]
-            return {"int": 0, "str": None, "any": []}[ty]
+                return {"int": None, "str": None, "any": [], "dec": None}[ty]
+            return {"int": 0, "str": None, "any": [], "dec": Decimal(0)}[ty]
         return None
 
     def pytype(self, ty: str, req: bool) -> Any:
@@ -134,23 +145,29 @@ class Names:
 
 
 # ---- model classes (gamma) -------------------------------------------------------------------------
-DEFAULTS = {"int": 7, "str": "dflt", "any": "anydflt"}
-PYTYPES = {"int": int, "str": str, "any": Any}
+# "dec": a field type whose dumped form is not the value itself (Decimal <-> str): object side and data side are rendered differently
+DEFAULTS = {"int": 7, "str": "dflt", "any": "anydflt", "dec": Decimal("7.5")}
+PYTYPES = {"int": int, "str": str, "any": Any, "dec": Decimal}
+
+
+def to_data(v: Any) -> Any:
+    """the documented dumped form of an object-side value"""
+    return str(v) if isinstance(v, Decimal) else v
 
 
 def good_value(shape, i: int, names: "Optional[Names]" = None) -> Any:
     ty = shape[i - 1]["ty"]
-    return {"int": 100 + i, "str": f"v{i}", "any": {(names.table["u1"] if names else "unk1"): "x1"}}[ty]
+    return {"int": 100 + i, "str": f"v{i}", "any": {(names.table["u1"] if names else "unk1"): "x1"}, "dec": Decimal(f"{100 + i}.25")}[ty]
 
 
 def bad_value(shape, i: int) -> Any:
     ty = shape[i - 1]["ty"]
-    return {"int": "bad", "str": 5, "any": "anybad"}[ty]
+    return {"int": "bad", "str": 5, "any": "anybad", "dec": "bad"}[ty]
 
 
 def derived_value(shape, i: int) -> Any:
     """what the constructor of the model computes for the output-only field i (spec: DerivedV)"""
-    return {"int": 900 + i, "str": f"derived{i}", "any": "anyderived"}[shape[i - 1]["ty"]]
+    return {"int": 900 + i, "str": f"derived{i}", "any": "anyderived", "dec": Decimal(f"{900 + i}.5")}[shape[i - 1]["ty"]]
 
 
 def out_only(f: dict) -> bool:
@@ -185,11 +202,11 @@ def make_kwargs_model(shape, names: Names):
     params, body = [], ["    self.kwargs = kwargs"]
     for f in shape:
         n = names.field(f["id"])
-        ann = {"int": "int", "str": "str", "any": "object"}[f["ty"]]
+        ann = {"int": "int", "str": "str", "any": "object", "dec": "Decimal"}[f["ty"]]
         params.append(f"{n}: {ann}" if f["req"] else f"{n}: {ann} = {names.default(f['ty'])!r}")
         body.append(f"    self.{n} = {n}")
     src = "class Model:\n  def __init__(self, *, " + ", ".join(params) + ", **kwargs):\n" + "\n".join("  " + b for b in body) + "\n"
-    ns: dict = {}
+    ns: dict = {"Decimal": Decimal}
     exec(src, ns)  # noqa: S102
     return ns["Model"]
 
@@ -310,12 +327,14 @@ ODD_OBJECTS = [lambda: re.match("(?P<zz>x)", "x"), _OddIndex, _OddKey]
 ABSENT = type("Absent", (), {"__repr__": lambda self: "<absent>"})()
 
 
-def render_data(d: dict, shape, names: Names) -> Any:
+def render_data(d: dict, shape, names: Names, side: str = "data") -> Any:
+    """side = "data": the external representation (probe inputs, expected dumps); "obj": the value a field of the object holds"""
     c = d["c"]
     if c == "atom":
         a = d["a"]
+        conv = to_data if side == "data" else (lambda v: v)
         if a == "good":
-            return good_value(shape, d["f"], names)
+            return conv(good_value(shape, d["f"], names))
         if a == "bad":
             return bad_value(shape, d["f"])
         if a == "none":
@@ -323,19 +342,19 @@ def render_data(d: dict, shape, names: Names) -> Any:
         if a == "xtra":
             return f"x{d['f']}"
         if a == "dfl":
-            return names.default(shape[d["f"] - 1]["ty"])
+            return conv(names.default(shape[d["f"] - 1]["ty"]))
         if a == "absent":
             return ABSENT
         if a == "derived":
-            return derived_value(shape, d["f"])
+            return conv(derived_value(shape, d["f"]))
         if a == "odd":
             return ODD_OBJECTS[len(shape) % len(ODD_OBJECTS)]()
         if a == "falsy":
-            return names.falsy(shape[d["f"] - 1]["ty"])
+            return conv(names.falsy(shape[d["f"] - 1]["ty"]))
         raise ValueError(a)
     if c == "dict":
-        return {names.key(k): render_data(v, shape, names) for k, v in zip(d["ks"], d["vs"])}
-    return [render_data(x, shape, names) for x in d["xs"]]
+        return {names.key(k): render_data(v, shape, names, side) for k, v in zip(d["ks"], d["vs"])}
+    return [render_data(x, shape, names, side) for x in d["xs"]]
 
 
 def none_leaf_fields(d: dict, paths: list) -> list:
@@ -632,7 +651,7 @@ def run_program(case: dict, seed: int, names: Names, out: dict, kind=None) -> No
                             if prune_extra(dict(got) if isinstance(got, dict) else got) != prune_extra(exp):
                                 add("C03", "extra_target_content", f"{dtname}: target field got {got!r}, unknown data is {exp!r}", **pd)
                         else:
-                            exp = render_data(want, shape, names)
+                            exp = render_data(want, shape, names, "obj")
                             if got != exp or type(got) is not type(exp):
                                 add("C03", "field_value_from_wrong_place", f"{dtname}: field {names.field(f['id'])} = {got!r}, documented {exp!r} for input {datum!r}",
                                     {"default": want["a"] == "dfl"}, **pd)
@@ -702,7 +721,7 @@ def run_program(case: dict, seed: int, names: Names, out: dict, kind=None) -> No
     if created and case["created_out"]:
         strict: dict = {}
         for dump in case["dumps"]:
-            vals = {names.field(f["id"]): render_data(v, shape, names) for f, v in zip(shape, dump["obj"]) if not out_only(f)}
+            vals = {names.field(f["id"]): render_data(v, shape, names, "obj") for f, v in zip(shape, dump["obj"]) if not out_only(f)}
             vals = {k: (MISSING if v is ABSENT else v) for k, v in vals.items()}
             obj = construct(model_out, vals)
             if any(v["a"] == "bad" for v in dump["obj"]):
@@ -730,6 +749,7 @@ def run_program(case: dict, seed: int, names: Names, out: dict, kind=None) -> No
                         f"dump({obj!r}) with type checking field dumpers: {verdicts}; documented: {'fails' if dump['fails'] else 'succeeds'}")
                 continue
             want = render_data(dump["out"], shape, names)
+            backs: list = []
             for dtname, dumper in dumpers.items():
                 out["runs"] += 1
                 try:
@@ -757,6 +777,7 @@ def run_program(case: dict, seed: int, names: Names, out: dict, kind=None) -> No
                     except BaseException as e:  # noqa: BLE001
                         add("C01", "load_of_dump_raises", f"{dtname}: x={obj!r} dump={got!r}; load raised {type(e).__name__}: {str(e)[:150]}", dt=dtname)
                     else:
+                        backs.append(back)
                         diff = [n for n in vals if vals[n] is not MISSING and rd(back, n, None) != vals[n]]
                         gone = [n for n in vals if vals[n] is MISSING and rd(back, n, MISSING) is not MISSING]
                         if diff or gone:
@@ -770,6 +791,14 @@ def run_program(case: dict, seed: int, names: Names, out: dict, kind=None) -> No
                               lambda a, r: [rd(a, n, None) for n in any_fields]
                               + (list((rd(a, names.field(shape[xtarget - 1]["id"]), None) or {}).values()) if xtarget else []),
                               got, f"dump {dtname}", case)
+            # the objects load() returned belong to the caller: what the caller does to them must not reach any later result
+            for back in backs:
+                for n in vals:
+                    v = rd(back, n, None)
+                    if isinstance(v, list):
+                        v.append("poison")
+                    elif isinstance(v, dict):
+                        v["poison"] = 1
 
 
 def run_twin(c1: dict, c2: dict, seed: int, names: Names, out: dict) -> None:
@@ -811,7 +840,11 @@ def run_twin(c1: dict, c2: dict, seed: int, names: Names, out: dict) -> None:
             both_ok = p1["out"]["ok"] and p2["out"]["ok"]
 
             def add(what, detail):
-                out["C03"].append({"sig": {"what": what, "twin": True}, "detail": detail, "size": 10 ** 5 + len(json.dumps([c1["ovs"], c2["ovs"]])),
+                sig = {"what": what, "twin": True}
+                for c in (c1, c2):     # a location whose program lies in the subspace of the as_list / output-only finding
+                    if c["sch"]["aslist"] and program_features(c)["out_only_before_input_field"]:
+                        sig.update({"aslist": True, "out_only_before_input_field": True})
+                out["C03"].append({"sig": sig, "detail": detail, "size": 10 ** 5 + len(json.dumps([c1["ovs"], c2["ovs"]])),
                                    "case": {"shape": shape, "ovs_p": c1["ovs"], "ovs_q": c2["ovs"]}, "py_datum": repr(datum)[:300], "dt": dtname})
             if both_ok:
                 if res[0] == "err":
@@ -823,7 +856,7 @@ def run_twin(c1: dict, c2: dict, seed: int, names: Names, out: dict) -> None:
                         want = pr["out"]["obj"][i - 1]
                         if want["a"] == "extras":
                             continue
-                        exp = render_data(want, shape, names)
+                        exp = render_data(want, shape, names, "obj")
                         got = getattr(obj, names.field(f["id"]))
                         if got != exp:
                             add("twin_field_value", f"{dtname}: {loc}.{names.field(f['id'])} = {got!r}, documented {exp!r} for {datum!r}")
@@ -840,6 +873,38 @@ def run_twin(c1: dict, c2: dict, seed: int, names: Names, out: dict) -> None:
                         out["C05"].append({"sig": {"what": "twin_errors_not_exact_in_ALL", "twin": True},
                                            "detail": f"ALL: reported {sorted(map(str, flat))}; documented {sorted(map(str, want))} for {datum!r}",
                                            "size": 10 ** 5, "case": {"shape": shape, "ovs_p": c1["ovs"], "ovs_q": c2["ovs"]}})
+    # ---- the dumper side of the two locations: each location dumps by its own program (omit_default, paths, extras) ----
+    if not (c1["created_out"] and c2["created_out"]):
+        return
+    sigx = {}
+    for c in (c1, c2):
+        if c["sch"]["aslist"] and program_features(c)["out_only_before_input_field"]:
+            sigx = {"aslist": True, "out_only_before_input_field": True}
+    try:
+        dumpers = {dt.name: base.replace(debug_trail=dt).get_dumper(outer) for dt in (DebugTrail.ALL, DebugTrail.DISABLE)}
+    except Exception as e:  # noqa: BLE001
+        out["C03"].append({"sig": {"what": "twin_dumper_creation_raises", "twin": True, **sigx}, "detail": f"{type(e).__name__}: {str(e)[:200]}",
+                           "size": 10 ** 6, "case": {"shape": shape, "ovs_p": c1["ovs"], "ovs_q": c2["ovs"]}})
+        return
+    plain = lambda c: [d for d in c["dumps"] if not d["fails"] and not any(v["a"] in ("bad", "absent") for v in d["obj"])]  # noqa: E731
+    d1s, d2s = plain(c1), plain(c2)
+    n = min(len(d1s), len(d2s), 6)
+    for a, b in list(zip(d1s[:n], d2s[:n])) + list(zip(d1s[:n], d2s[n - 1::-1])):
+        def mk(d):
+            return model(**{names.field(f["id"]): render_data(v, shape, names, "obj") for f, v in zip(shape, d["obj"]) if not out_only(f)})
+        want = {"p": render_data(a["out"], shape, names), "q": render_data(b["out"], shape, names)}
+        for dtname, dumper in dumpers.items():
+            out["runs"] += 1
+            o = outer(p=mk(a), q=mk(b))
+            try:
+                got = dumper(o)
+            except BaseException as e:  # noqa: BLE001
+                got = f"raised {type(e).__name__}: {str(e)[:100]}"
+            if got != want:
+                out["C03"].append({"sig": {"what": "twin_dumped_layout_differs", "twin": True, **sigx},
+                                   "detail": f"{dtname}: dump({o!r}) = {got!r}; each location by its own program: {want!r}",
+                                   "size": 10 ** 5 + len(json.dumps([c1["ovs"], c2["ovs"]])),
+                                   "case": {"shape": shape, "ovs_p": c1["ovs"], "ovs_q": c2["ovs"]}, "dt": dtname})
 
 
 def _shape_of(x: Any) -> Any:
@@ -874,7 +939,22 @@ def _worker(items) -> dict:
     out: dict = {"programs": 0, "runs": 0, "machinery": [], "samples": [], "heap": {}, **{c: [] for c in CATS}}
     out["twins"] = 0
     out["by_kind"], out["unsupported"] = {}, {}
-    for seed, path, spans, tables, kinds in items:
+    for seed, path, spans, tables, kinds, *rest in items:
+        for sp1, sp2 in (rest[0] if rest else ()):
+            # sibling programs (they differ in omit_default only) as the two locations of one outer model
+            with open(path, "rb") as f:
+                cs = []
+                for off, ln in (sp1, sp2):
+                    f.seek(off)
+                    cs.append(json.loads(json.loads(f.read(ln).decode("utf-8"))))
+            names = Names()
+            names.dstyle = (int(stable_hash([cs[0]["shape"], cs[0]["ovs"]]), 16) + seed) % 3
+            try:
+                if cs[0]["created_in"] and cs[1]["created_in"]:
+                    run_twin(cs[0], cs[1], seed, names, out)
+                    out["twins"] += 1
+            except Exception:  # noqa: BLE001
+                out["machinery"].append(f"harness error on sibling twin {json.dumps(cs[0]['ovs'])[:300]}: {traceback.format_exc()[-900:]}")
         every_variant = bool(kinds) and kinds[0] == "*"
         if every_variant:
             kinds = kinds[1:]
@@ -890,6 +970,7 @@ def _worker(items) -> dict:
                     names.table_index = (h + seed) % len(tables)
                 try:
                     names.dstyle = (int(stable_hash([case["shape"], case["ovs"]]), 16) + seed) % 3
+                    names.user_factory = (int(stable_hash([case["shape"], case["ovs"]]), 16) // 3 + seed) % 2 == 0
                     choose_other_style(int(stable_hash([case["shape"], case["ovs"]]), 16) // 7 + seed)
                     if kinds is not None:
                         from .kinds import BY_NAME
@@ -897,14 +978,14 @@ def _worker(items) -> dict:
                         hv = int(stable_hash([case["shape"], case["ovs"]]), 16) + seed
                         if not tables and (hv // 3) % 2 and TYPE_PRED_ALLOWED["on"]:
                             # field names whose alphabetical order is the reverse of their order of definition
-                            ds = names.dstyle
+                            ds, uf = names.dstyle, names.user_factory
                             names = Names(REVERSED_NAMES)
-                            names.dstyle = ds
+                            names.dstyle, names.user_factory = ds, uf
                             names.reversed_names = True
                         elif not tables:
-                            ds = names.dstyle
+                            ds, uf = names.dstyle, names.user_factory
                             names = Names()
-                            names.dstyle = ds
+                            names.dstyle, names.user_factory = ds, uf
                         for kn in kinds:
                             if not every_variant and any(v.name == kn and i % 3 != hv % 3 for i, v in enumerate(VARIANT_KINDS)):
                                 continue          # a variant spelling: met by one program in three
@@ -951,6 +1032,7 @@ def run_slices(ctx: Ctx, slices, max_overlays: dict, tables: Optional[list] = No
         if not res.ok:
             ctx.model_violation(res, "Layout.tla violates its own consistency properties")
         spans = []
+        siblings: dict = {}
         off = n_seen = 0
         with open(res.out_path, "rb") as f:
             for line in f:
@@ -959,8 +1041,16 @@ def run_slices(ctx: Ctx, slices, max_overlays: dict, tables: Optional[list] = No
                     n_seen += 1
                     if every == 1 or (n_seen + ctx.seed) % every == 0:
                         spans.append((off, ln - 1))
+                    if sl == "E" and twins and kinds is None:
+                        case = json.loads(json.loads(line[:ln - 1].decode("utf-8")))
+                        if len(case["shape"]) == 3 and case["ovs"]:
+                            core = [case["shape"], [{**ov, "omit": None} for ov in case["ovs"]]]
+                            siblings.setdefault(stable_hash(core), []).append((off, ln - 1))
                 off += ln
         items = [(ctx.seed, str(res.out_path), spans[i:i + 20], tables, kinds) for i in range(0, len(spans), 20)]
+        # programs that differ in omit_default only, paired as two locations of one outer model (run_twin)
+        pairs = [(g[i], g[j]) for g in siblings.values() for i in range(len(g)) for j in range(len(g)) if i != j][: 4000]
+        items += [(ctx.seed, str(res.out_path), [], tables, kinds, pairs[i:i + 25]) for i in range(0, len(pairs), 25)]
         machinery = []
         for o in pmap(_worker, items, chunk=1):
             total["programs"] += o["programs"]
